@@ -16,7 +16,7 @@ def validate(ctx, spec, consts, tf, name):
             for m in re.finditer(r'<<\s*"PROPERTY-VIOLATED",\s*"([\w.]+)",\s*"line",\s*(\d+),\s*"trace",\s*(\d+),\s*"h",\s*(\d+)\s*>>', tr["text"])]
 
 
-def run(ctx, prop, replay, spec, mc, families, trace_consts, corrupt, rule, n_blocks=None, extra_mc=(), classify=None):
+def run(ctx, prop, replay, spec, mc, families, trace_consts, corrupt, rule, n_blocks=None, extra_mc=(), classify=None, tally=None):
     """mc = (consts, invariants, properties, constraint, view) for the exhaustive run of <spec>.tla (SPECIFICATION <mc_spec>)."""
     ctx.build("vworker", "vdrive")
     ctx.sany(spec, spec + "_Trace")
@@ -71,6 +71,8 @@ def run(ctx, prop, replay, spec, mc, families, trace_consts, corrupt, rule, n_bl
             acc = ["%s%s" % (x["req"]["kind"], json.dumps(x["req"]["a"], sort_keys=True)) for x in (blk or []) if x.get("deliver") and x["deliver"]["code"] == 0]
             text = "%s violated at block %d of history %s; accepted in that block: %s" % (p, h, scs[t - 1]["id"], "; ".join(acc)[:400])
             ctx.violation(sig, {"engine": "subsys", "spec": spec, "family": fam, "scenario": scs[t - 1], "block": h, "trace_line": json.loads(lines[line - 1])}, text)
+        if tally:
+            tally(tf)
         for k in tot:
             tot[k] += rep.get(k, 0)
         for k, v in rep["kind_stats"].items():
